@@ -39,6 +39,8 @@ func runC15(ctx *Ctx) {
 	}
 	ruleNoMapRange(ctx, "C15-R4")
 	ruleImportNamesUnique(ctx, "C15-R6")
+	ruleFloatMaskUnconditional(ctx, "C15-R7")
+	ruleNoNarrowSchemaArithmetic(ctx, "C15-R8")
 	ruleErrorsNotDropped(ctx, "C15-R5", []string{"capnpc-go"}, nil, func(callee string) bool {
 		return strings.HasPrefix(callee, "capnpc-go.") || strings.HasPrefix(callee, "os.") || strings.HasPrefix(callee, "io.") || strings.HasPrefix(callee, "go/format.") || strings.Contains(callee, "template.(*Template).Execute")
 	}, map[string]string{
